@@ -802,4 +802,38 @@ func offsetsNotNarrowed(r *Report, rule string) {
 		})
 	}
 	r.Sentinel(rule+".narrowings", n, 0)
+	// … and the other way round: a product computed in 32 bits is not widened afterwards. int64(chunk*ChunkSize) has
+	// already wrapped when the conversion sees it; the conversion belongs on the factors.
+	nW := 0
+	for _, f := range p.SrcFuncs() {
+		switch relPkg(f) {
+		case "tor", "peer", "tor/piece", "http", "fuse", "webseed":
+		default:
+			continue
+		}
+		allInstrs(f, func(in ssa.Instruction) {
+			cv, ok := in.(*ssa.Convert)
+			if !ok || !isInteger(cv.Type()) || intBits(cv.Type()) < 64 || !isInteger(cv.X.Type()) || !sized32(cv.X.Type()) {
+				return
+			}
+			bo, isB := cv.X.(*ssa.BinOp)
+			if !isB || bo.Op != token.MUL {
+				return
+			}
+			if _, isK := bo.X.(*ssa.Const); isK {
+				if _, isK2 := bo.Y.(*ssa.Const); isK2 {
+					return
+				}
+			}
+			nW++
+			r.Fn(f)
+			l, rr := env.At(bo.X, cv.Block()), env.At(bo.Y, cv.Block())
+			tr := typeRange(bo.Type())
+			hi := satMul(l.Hi, rr.Hi)
+			good := l.Lo >= 0 && rr.Lo >= 0 && hi <= tr.Hi
+			r.Check(good, rule, fmt.Sprintf("%s/%s(%s)-product-widened-first", fname(f), cv.Type().String(), exprStr(bo)), cv.Pos(), "the 32-bit product cannot wrap here",
+				fmt.Sprintf("the product %s is computed in %s and only then converted to %s: for blocks at or beyond 4 GiB it has already wrapped (factors in %s and %s), and the length or offset derived from it belongs to another place of the torrent", exprStr(bo), bo.Type().String(), cv.Type().String(), l, rr))
+		})
+	}
+	r.Sentinel(rule+".widenings", nW, 0)
 }
